@@ -11,7 +11,9 @@ import (
 	"strings"
 	"time"
 
+	v1 "github.com/fatedier/frp/pkg/config/v1"
 	"github.com/fatedier/frp/pkg/msg"
+	"github.com/fatedier/frp/pkg/util/util"
 	"verifharness/hx"
 )
 
@@ -35,6 +37,9 @@ type world struct {
 	alive    []bool      // session believed to have an open control connection
 	ports    []int       // attempt -> remote port (0: not probed)
 	allPorts []int       // every port handed out in this case
+	stcpName []int       // attempt -> name index for stcp attempts (-1: tcp)
+	stcpCur  map[int]int // name -> the stcp attempt that last succeeded under it
+	maxPorts int         // serverCfg.MaxPortsPerClient of this case (0 = unlimited)
 	items    []string
 	outs     []outRec
 	fails    []map[string]any
@@ -47,12 +52,42 @@ type outRec struct {
 	text string
 }
 
-func newWorld(name string) (*world, error) {
-	s, err := hx.StartServer(bindAddr, nil)
+func newWorld(name string, maxPorts int) (*world, error) {
+	s, err := hx.StartServer(bindAddr, func(c *v1.ServerConfig) { c.MaxPortsPerClient = int64(maxPorts) })
 	if err != nil {
 		return nil, err
 	}
-	return &world{s: s, stored: map[int]int{}, kinds: map[string]int{}, caseName: name}, nil
+	return &world{s: s, stored: map[int]int{}, kinds: map[string]int{}, caseName: name, maxPorts: maxPorts, stcpCur: map[int]int{}}, nil
+}
+
+const stcpKey = "c12-secret"
+
+// stcpListening: is a visitor connection for the stcp proxy name accepted (its listener exists)?
+func (w *world) stcpListening(name int) bool {
+	rid := ""
+	for i, a := range w.alive {
+		if a {
+			rid = w.ridNames[w.peerRid[i]]
+		}
+	}
+	if rid == "" {
+		return false
+	}
+	c, err := w.s.Dial()
+	if err != nil {
+		return false
+	}
+	defer c.Close()
+	ts := time.Now().Unix()
+	if err := msg.WriteMsg(c, &msg.NewVisitorConn{RunID: rid, ProxyName: pname(name), SignKey: util.GetAuthKey(stcpKey, ts), Timestamp: ts}); err != nil {
+		return false
+	}
+	_ = c.SetReadDeadline(time.Now().Add(2 * time.Second))
+	var r msg.NewVisitorConnResp
+	if err := msg.ReadMsgInto(c, &r); err != nil {
+		return false
+	}
+	return r.Error == ""
 }
 
 func (w *world) close() {
@@ -120,6 +155,13 @@ func (w *world) observe() {
 	sort.Slice(ns, func(i, j int) bool { return ns[i].a < ns[j].a })
 	var bound []string
 	for att, port := range w.ports {
+		if n := w.stcpName[att]; n >= 0 {
+			// visitor listeners are keyed by name: only the newest successful attempt under a name is probed
+			if cur, ok := w.stcpCur[n]; ok && cur == att && w.stcpListening(n) {
+				bound = append(bound, fmt.Sprint(att))
+			}
+			continue
+		}
 		if port > 0 && !hx.TCPBindable(bindAddr, port) {
 			bound = append(bound, fmt.Sprint(att))
 		}
@@ -158,6 +200,8 @@ func errClass(e string) int {
 	switch {
 	case e == "":
 		return 0
+	case strings.Contains(e, "exceed the max_ports_per_client"):
+		return 5
 	case strings.Contains(e, "already exists"):
 		return 2
 	case strings.Contains(e, "proxy name [") && strings.Contains(e, "already in use"):
@@ -255,6 +299,7 @@ func (w *world) newPort(reuseAtt int) (att, port int, runok bool) {
 	if reuseAtt >= 0 && reuseAtt < len(w.ports) && w.ports[reuseAtt] > 0 && !hx.TCPBindable(bindAddr, w.ports[reuseAtt]) {
 		// a port some running proxy holds: pxy.Run() must fail
 		w.ports = append(w.ports, 0)
+		w.stcpName = append(w.stcpName, -1)
 		return att, w.ports[reuseAtt], false
 	}
 	// a port never used by an earlier attempt of this case (the OS may hand a freed port out again,
@@ -273,6 +318,7 @@ func (w *world) newPort(reuseAtt int) (att, port int, runok bool) {
 	}
 	w.allPorts = append(w.allPorts, port)
 	w.ports = append(w.ports, port)
+	w.stcpName = append(w.stcpName, -1)
 	return att, port, true
 }
 
@@ -295,6 +341,31 @@ func (w *world) recvNewProxyResp(sid, name int) (int, error) {
 	return errClass(m.(*msg.NewProxyResp).Error), nil
 }
 
+// seqRegisterStcp: an stcp proxy (no port; GetUsedPortsNum = 0; its listener lives in the visitor manager)
+func (w *world) seqRegisterStcp(sid, name int) int {
+	att := len(w.ports)
+	w.ports = append(w.ports, 0)
+	w.stcpName = append(w.stcpName, name)
+	if err := w.peers[sid].Send(&msg.NewProxy{ProxyName: pname(name), ProxyType: "stcp", Sk: stcpKey}); err != nil {
+		w.fail("seq-send-failed", fmt.Sprintf("NewProxy(stcp) on session %d: %v", sid, err))
+		return -1
+	}
+	cls, err := w.recvNewProxyResp(sid, name)
+	if err != nil {
+		w.fail("seq-no-newproxyresp", fmt.Sprintf("no NewProxyResp on session %d: %v", sid, err))
+		return -1
+	}
+	if cls == 0 {
+		w.stcpCur[name] = att
+	}
+	w.item(fmt.Sprintf("IAct (AReq %d (RNew %d %d 0%%Z true %s))", sid, name, att, hx.Bool(cls != 3)))
+	w.item("ISettle")
+	w.outs = append(w.outs, outRec{sid, fmt.Sprintf("ONewProxyResp %d %d %d %d true", sid, name, att, cls)})
+	w.kind(fmt.Sprintf("newproxy-stcp-class-%d", cls))
+	w.observe()
+	return cls
+}
+
 func (w *world) seqRegister(sid, name, reuseAtt int, cfgok bool) int {
 	att, port, runok := w.newPort(reuseAtt)
 	if !cfgok {
@@ -315,7 +386,10 @@ func (w *world) seqRegister(sid, name, reuseAtt int, cfgok bool) int {
 		w.ports[att] = 0
 		w.kind("unexpected-run-failure")
 	}
-	w.item(fmt.Sprintf("IAct (AReq %d (RNew %d %d %s %s))", sid, name, att, hx.Bool(cfgok), hx.Bool(runok)))
+	if cls != 0 {
+		w.ports[att] = 0 // nothing of this attempt listens; do not probe a port the OS may hand out again
+	}
+	w.item(fmt.Sprintf("IAct (AReq %d (RNew %d %d 1%%Z %s %s))", sid, name, att, hx.Bool(cfgok), hx.Bool(runok)))
 	w.item("ISettle")
 	w.outs = append(w.outs, outRec{sid, fmt.Sprintf("ONewProxyResp %d %d %d %d true", sid, name, att, cls)})
 	w.kind(fmt.Sprintf("newproxy-class-%d", cls))
@@ -467,7 +541,11 @@ func runSessions(cfg *hx.RunCfg) error {
 		if gated {
 			name = "sched-" + schedules[i%len(schedules)].name
 		}
-		w, err := newWorld(name)
+		quota := 0
+		if !gated && g.Intn(5) < 2 {
+			quota = 1 + g.Intn(3)
+		}
+		w, err := newWorld(name, quota)
 		if err != nil {
 			return err
 		}
@@ -478,7 +556,7 @@ func runSessions(cfg *hx.RunCfg) error {
 			seqHistory(g, w)
 		}
 		w.close()
-		text := hx.List(w.items)
+		text := fmt.Sprintf("(%d%%Z, %s)", w.maxPorts, hx.List(w.items))
 		cases = append(cases, text)
 		if len(w.items) > 3 {
 			distinct[text] = true
@@ -502,6 +580,8 @@ func runSessions(cfg *hx.RunCfg) error {
 			"Definition NBLOCKED := Eval vm_compute in (count_if (has_item is_blocked) cases : Z).\nPrint NBLOCKED.\n" +
 			"Definition NEXISTS := Eval vm_compute in (count_if (has_item (has_err 2)) cases : Z).\nPrint NEXISTS.\n" +
 			"Definition NINUSE := Eval vm_compute in (count_if (has_item (has_err 4)) cases : Z).\nPrint NINUSE.\n" +
+			"Definition NQUOTA := Eval vm_compute in (count_if (has_item (has_err 5)) cases : Z).\nPrint NQUOTA.\n" +
+			"Definition NQUOTACASES := Eval vm_compute in (count_if has_quota cases : Z).\nPrint NQUOTACASES.\n" +
 			"Definition NRUNFAIL := Eval vm_compute in (count_if (has_item (has_err 3)) cases : Z).\nPrint NRUNFAIL.\n",
 	}
 	if err := cf.Write(cfg.Out); err != nil {
